@@ -145,7 +145,7 @@ def quiet():
                 logging.disable(old_disable)
 
 
-def run_alg(alg, data, case, init=None, printitn=0, dimorder=None, ranks=None, seed=None):
+def run_alg(alg, data, case, init=None, printitn=0, dimorder=None, ranks=None, seed=None, inner=0):
     """Run one driver quietly.  -> {"full": ndarray, "nums": {...}, "ints": {...}, "out": str, "init": ...}
     or {"reject": True, "exc": name}."""
     try:
@@ -162,7 +162,8 @@ def run_alg(alg, data, case, init=None, printitn=0, dimorder=None, ranks=None, s
             elif alg.startswith("cp_apr"):
                 i0 = init if isinstance(init, str) else ttb.ktensor([a.copy() for a in init])
                 M, M0, o = ttb.cp_apr(data, R, algorithm=alg.split("_")[2], init=i0, printitn=printitn,
-                                      maxiters=case.get("maxiters", 3), stoptol=case.get("stoptol", 1e-4))
+                                      printinneritn=inner, maxiters=case.get("maxiters", 3),
+                                      stoptol=case.get("stoptol", 1e-4))
                 kkt = np.ravel(o["kktViolations"])
                 res = {"full": M.full().data, "nums": {"obj": o["obj"], "kkt": float(kkt[-1])},
                        "ints": {"outer": len(kkt)}, "inner": np.ravel(o["nInnerIters"]).tolist(),
@@ -260,7 +261,7 @@ STATS = []  # (label, worst) of every judged pair (development aid, also summari
 
 def judge(worst, what, tol, tags, label, control, impl):
     """ok / illcond / violation."""
-    STATS.append((label.split(" by ")[0].split(" vs ")[0] + " " + label.split(" ")[1] if False else label, worst))
+    STATS.append((label, worst))
     if worst <= tol:
         return Verdict("ok", "", impl, None, None, tags, True)
     amp = control()
@@ -331,7 +332,7 @@ class Repr(Family):
 
     def gen(self, rng, tier):
         out = []
-        reps = 3 if tier == "quick" else 14
+        reps = 9 if tier == "quick" else 42
         for alg in ALGS_CP + ["tucker_als"]:
             for k in range(reps):
                 c = base_case(rng, tier, alg)
@@ -423,7 +424,7 @@ class Print(Family):
 
     def gen(self, rng, tier):
         out = []
-        reps = 2 if tier == "quick" else 8
+        reps = 4 if tier == "quick" else 20
         for alg in ALGS_ALL:
             for k in range(reps):
                 c = base_case(rng, tier, alg)
@@ -442,7 +443,9 @@ class Print(Family):
             X, init = make_problem(c)
             tags = [alg, c["rep"]]
             levels = [0, 1, 3, 10] if alg == "hosvd" else PRINTS
-            runs = [run_alg(alg, as_data(X, c["rep"]), c, init=init_for(alg, c, init), printitn=p) for p in levels]
+            inner = [0, 0, 1, 2] if alg.startswith("cp_apr") else [0, 0, 0, 0]  # cp_apr's second verbosity knob
+            runs = [run_alg(alg, as_data(X, c["rep"]), c, init=init_for(alg, c, init), printitn=p, inner=q)
+                    for p, q in zip(levels, inner)]
             impl = {f"p{p}": brief(r) for p, r in zip(levels, runs)}
             rej = [bool(r.get("reject")) for r in runs]
             if any(rej):
@@ -495,7 +498,7 @@ class Seed(Family):
 
     def gen(self, rng, tier):
         out = []
-        reps = 2 if tier == "quick" else 8
+        reps = 4 if tier == "quick" else 20
         for alg in ("cp_als", "cp_apr_mu", "cp_apr_pdnr", "cp_apr_pqnr", "tucker_als", "gcp"):
             for _ in range(reps):
                 c = base_case(rng, tier, alg)
@@ -529,6 +532,10 @@ class Seed(Family):
                 np.random.uniform = orig
             b = run_alg(alg, as_data(X, "dense"), c, seed=c["seed"], **kw)
             d = run_alg(alg, as_data(X, "dense"), c, seed=c["seed2"], **kw)
+            # with a given guess nothing may be drawn from the global stream
+            _, gi = make_problem(c)
+            g = run_alg(alg, as_data(X, "dense"), c, seed=c["seed"], init=init_for(alg, c, gi), dimorder=c.get("dimorder"))
+            untouched = np.random.random_sample() == _rs(c["seed"]).random_sample()
             impl = {"a": brief(a), "b": brief(b), "other_seed": brief(d)}
             if a.get("reject") or b.get("reject") or d.get("reject"):
                 same = bool(a.get("reject")) == bool(b.get("reject"))
@@ -547,6 +554,8 @@ class Seed(Family):
                             impl, None, None, tags)
             else:
                 v = Verdict("ok", "", impl, None, None, tags + ["bitwise"], True)
+            if v.status == "ok" and not g.get("reject") and not untouched:
+                v = Verdict("violation", f"{alg}: a run with a given guess consumed the global NumPy stream", impl, None, None, tags)
             ia = [u for u in a["init"] if u is not None]
             idd = [u for u in d["init"] if u is not None]
             if v.status == "ok" and all(np.array_equal(x, y) for x, y in zip(ia, idd)):
@@ -593,7 +602,7 @@ class Scale(Family):
 
     def gen(self, rng, tier):
         out = []
-        reps = 3 if tier == "quick" else 12
+        reps = 6 if tier == "quick" else 30
         for alg in ("cp_als", "tucker_als", "hosvd"):
             for k in range(reps):
                 c = base_case(rng, tier, alg)
@@ -664,7 +673,7 @@ class Relabel(Family):
 
     def gen(self, rng, tier):
         out = []
-        reps = 2 if tier == "quick" else 6
+        reps = 4 if tier == "quick" else 14
         for alg in ("cp_als", "tucker_als", "hosvd", "gcp"):
             for k in range(reps):
                 c = base_case(rng, tier, alg, n=3)
@@ -674,7 +683,7 @@ class Relabel(Family):
                     c["rep"] = "sparse" if k % 2 else "dense"
                 out.append(c)
             if tier == "thorough":
-                for _ in range(3):
+                for _ in range(4):
                     c = base_case(rng, tier, alg, n=4)
                     c["dimorder"] = rng.sample(range(4), 4)
                     c["perms"] = [rng.sample(range(4), 4) for _ in range(6)]
@@ -853,7 +862,7 @@ class AprObserve(Family):
 
     def gen(self, rng, tier):
         out = []
-        for _ in range(12 if tier == "quick" else 80):
+        for _ in range(30 if tier == "quick" else 200):
             n = rng.choice([2, 3])
             R = rng.choice([1, 2, 3])
             normalised = rng.random() < 0.5
